@@ -58,7 +58,7 @@ Proof.
     exists mid. split; auto. subst t. eapply K_comment; eauto. }
   destruct ((c =? 60) && match m with Alias => true | Normal => false end) eqn:G.
   { apply andb_true_iff in G. destruct G as [G1 G]. apply N.eqb_eq in G1. subst c. destruct m; [discriminate G|].
-    apply aliasParameter_spec in H. destruct H as (T & mid & C & _ & [(b & Em & N62)|(Rs & N62)]); exists mid; split; auto; subst t.
+    apply aliasParameter_spec in H. destruct H as (T & mid & [C _] & [(b & Em & N62)|(Rs & N62)]); exists mid; split; auto; subst t.
     - subst mid. apply K_apar; auto.
     - apply K_apar_open; auto. }
   inv H. exists []. split; [apply Cons_refl|]. eqb_all. apply K_symbol; auto.
